@@ -538,6 +538,11 @@ class Workbook:
             return 0
         if name == 'ISBLANK':
             return _scalar(ev(args[0])) is None
+        if name == 'ISNUMBER':
+            v = _scalar(ev(args[0]))
+            return isinstance(v, (int, float)) and not isinstance(v, bool)
+        if name == 'ISTEXT':
+            return isinstance(_scalar(ev(args[0])), str)
         if name == 'ISERROR':
             return isinstance(_scalar(ev(args[0])), Err)
         if name == 'NA':
